@@ -69,8 +69,11 @@ EXHAUSTIVE_SCOPE = {
   "quick": "scenarios a (2 threads x 2 callLater; 2 x 1 via core.call_later / raiseLater), b (2 foreign wakers + 1 in-thread waker), "
            "c (1 task x 3 steps, 2 threads x 1 section, one nested) : every schedule with <= 1 deviation from the default "
            "round-robin schedule at window lines / forced switches, both hub modes, both base orders; scenario d: every pair of "
-           "lock programs of length 3 and every triple of length 2 over {acquire, try, release, yield} on one lock, default "
-           "schedule; the same deviation enumeration (<= 1) with the scheduler under test not being recoco.defaultScheduler, and "
+           "lock programs of length 3 and every triple of length 2 over {acquire, try, release, yield} on one lock (inline hub), every "
+           "(length-3, length-2) pair over {helper-acquire, helper-release, release-by-other, acquire, yield}, 25 x 25 x 5 triples of "
+           "length 2 over {acquire, helper-acquire, try, release-by-other, yield} on a lock created locked, default schedule; b "
+           "with a target that yields 0 once per resume and waits in Sleep(); a (1 thread + 2 follow-up hand-overs) with the real "
+           "PipePinger: one non-default choice at a forced switch followed by one pre-emption inside PipePinger.ping/pong/pong_all; the same deviation enumeration (<= 1) with the scheduler under test not being recoco.defaultScheduler, and "
            "(threaded hub, base order 0) with util's real PipePinger over virtual pipes; call-later bursts of N in {1, 2, 1023, "
            "1024, 1025, 2047, 2048, 2049} from one thread x inside/outside synchronized() x with/without warm-up x both hubs x "
            "both base orders, and six two-thread splits, default schedule, real PipePinger",
@@ -1032,18 +1035,19 @@ _D_OPS4 = [["a", 0], ["A", 0], ["t", 0], ["x", 0], ["y"]]      # with Lock(locke
 def _enum_locks(tier):
   def gen():
     progs = [list(x) for x in itertools.product(_D_OPS1, repeat=3)]
-    for hub in (True, False):
+    for hub in ((True, False) if tier == "thorough" else (False,)):
       for a in progs:
         for b in progs:
           yield {"scn": "d", "hub": hub, "p": {"locks": 1, "tasks": [a, b]}, "sched": {"on": "win", "base": 0, "devs": []}}
     progs3 = [list(x) for x in itertools.product(_D_OPS3, repeat=3)]
+    progs3b = [list(x) for x in itertools.product(_D_OPS3, repeat=2)]
     for a in progs3:
-      for b in progs3:
+      for b in (progs3 if tier == "thorough" else progs3b):
         yield {"scn": "d", "hub": False, "p": {"locks": 1, "tasks": [a, b]}, "sched": {"on": "win", "base": 0, "devs": []}}
     progs4 = [list(x) for x in itertools.product(_D_OPS4, repeat=2)]
     for a in progs4:
       for b in progs4:
-        for c in progs4[::3]:
+        for c in progs4[::(2 if tier == "thorough" else 6)]:
           yield {"scn": "d", "hub": False, "p": {"locks": 1, "init": [True], "tasks": [a, b, c]},
                  "sched": {"on": "win", "base": 0, "devs": []}}
     progs2t = [list(x) for x in itertools.product(_D_OPS1, repeat=2)]
@@ -1116,9 +1120,9 @@ def _enum_nondefault(tier):
 
 def plan(tier):
   n = 1600 if tier == "quick" else 40000
-  return [Enum("sched-deviations", _enum_sched(tier), shards=16),
+  return [Enum("sched-deviations", _enum_sched(tier), shards=8 if tier == "quick" else 16),
           Enum("lock-programs", _enum_locks(tier), shards=16),
-          Enum("nondefault-scheduler", _enum_nondefault(tier), shards=8),
-          Enum("calllater-bursts", _enum_bursts(tier), shards=16),
-          Enum("pinger-windows", _enum_pinger_windows(tier), shards=16),
-          Hyp("random-schedules", _strategy(tier), examples=n, shards=16)]
+          Enum("nondefault-scheduler", _enum_nondefault(tier), shards=4 if tier == "quick" else 16),
+          Enum("calllater-bursts", _enum_bursts(tier), shards=6),
+          Enum("pinger-windows", _enum_pinger_windows(tier), shards=4 if tier == "quick" else 16),
+          Hyp("random-schedules", _strategy(tier), examples=n, shards=12 if tier == "quick" else 16)]
